@@ -156,3 +156,76 @@ def shrink_api(spec, test, get_explicit):
         kept = ddmin_list(lines, lambda x: test(with_lines(x)))
         cur = with_lines(kept)
     return cur
+
+
+# ------------------------------------------------------------------------------------------ worlds
+def shrink_world(spec, test):
+    """Smaller world/command for which test() still reports the same violation class; None if spec itself does not."""
+    from sim import cligen
+    cur = copy.deepcopy(spec)
+    if not test(cur):
+        return None
+
+    def attempt(mutator):
+        nonlocal cur
+        cand = copy.deepcopy(cur)
+        if mutator(cand) is False:
+            return False
+        cand['cmd']['argv'] = cligen.build_argv(cand['cmd'], cand['cmd'].get('shuffle'))
+        if test(cand):
+            cur = cand
+            return True
+        return False
+
+    # restart, environment twins, listing permutation, argv shuffle
+    if cur.get('restart_p'):
+        attempt(lambda s: s.update(restart_p=0.0))
+    if cur.get('env_twins'):
+        for i in reversed(range(len(cur['env_twins']))):
+            attempt(lambda s, i=i: s['env_twins'].pop(i))
+    attempt(lambda s: s.update(listing_seed=0))
+    if cur['cmd'].get('shuffle') is not None:
+        attempt(lambda s: s['cmd'].pop('shuffle'))
+    if cur.get('cwd'):
+        pass    # paths are relative to it; keep
+
+    # tree entries: try dropping each file / link / directory (directories only when nothing lives under them)
+    def with_tree(entries):
+        s = copy.deepcopy(cur)
+        s['tree'] = copy.deepcopy(entries)
+        return s
+
+    def tree_ok(entries):
+        names = set(e[1] for e in entries)
+        for e in entries:
+            parent = e[1].rsplit('/', 1)[0] if '/' in e[1] else None
+            if parent is not None and parent not in names:
+                return False
+        return True
+    kept = ddmin_list(cur['tree'], lambda es: tree_ok(es) and test(with_tree(es)), min_len=1)
+    cur = with_tree(kept)
+
+    # path arguments, flags, preserve options, env
+    for key in ('paths', 'flags', 'preserve'):
+        items = cur['cmd'].get(key) or []
+        if len(items) > (1 if key == 'paths' else 0):
+            def with_items(x, key=key):
+                s = copy.deepcopy(cur)
+                s['cmd'][key] = list(x)
+                s['cmd']['argv'] = cligen.build_argv(s['cmd'], s['cmd'].get('shuffle'))
+                return s
+            k2 = ddmin_list(items, lambda x: test(with_items(x)), min_len=1 if key == 'paths' else 0)
+            cur = with_items(k2)
+    for k in sorted((cur.get('env') or {})):
+        attempt(lambda s, k=k: s['env'].pop(k))
+
+    # file contents: try the empty file and a one-line module for every non-essential file
+    for i, e in enumerate(cur['tree']):
+        if e[0] != 'f':
+            continue
+        for repl in ('a:', 'a:x = 1\n'):
+            if e[2] == repl:
+                break
+            if attempt(lambda s, i=i, repl=repl: s['tree'][i].__setitem__(2, repl)):
+                break
+    return cur
